@@ -209,8 +209,8 @@ def r3(fx):
         pat.match(ww.body[0], 'serializer(matrix, matrix_size, f, **kw)', mode='stmt') is not None and ast.unparse(ww.items[0].optional_vars) == 'f'
     g = nf.guard_text(nf.guards_of(ww, sv))
     isz = single([s for s in sv.body if isinstance(s, ast.Assign) and ast.unparse(s.targets[0]) == 'is_svgz'], 'is_svgz')
-    yield ob('svgz = the SVG serialiser writing through gzip.open, only for file names', okz and g == 'is_svgz'
-             and nf.norm(isz.value) == "(ext == 'svgz' and not is_stream)", ww, got=f'{ast.unparse(ww.items[0].context_expr)} if {ast.unparse(isz.value)}',
+    yield ob('svgz = the SVG serialiser writing through gzip.open, only for file names', okz and nf.guard_is(nf.guards_of(ww, sv), 'is_svgz')
+             and nf.same(isz.value, "(ext == 'svgz' and not is_stream)"), ww, got=f'{ast.unparse(ww.items[0].context_expr)} if {ast.unparse(isz.value)}',
              want="gzip.open(out, 'wb', compresslevel=kw.pop('compresslevel', 9)) if not is_stream and ext == 'svgz'")
     # is_mode_supported / get_eci_assignment_number
     ims = make_callable(fx.forest, 'encoder', 'is_mode_supported', it)
@@ -300,8 +300,9 @@ def r5(fx):
         for n in src.walk_local(fn):
             if isinstance(n, ast.Assert):
                 asserts.append((m, q, n))
-    got = sorted((m, q, ast.unparse(n.test)) for m, q, n in asserts)
-    want = [('encoder', 'find_version', 'not (eci and micro)'), ('encoder', 'mask_scores', 'width == height')]
+    got = sorted((m, q, nf.norm(n.test)) for m, q, n in asserts)
+    want = sorted([('encoder', 'find_version', nf.norm(ast.parse('not (eci and micro)', mode='eval').body)),
+                   ('encoder', 'mask_scores', nf.norm(ast.parse('width == height', mode='eval').body))])
     if got != want:
         raise Unknown(f'the set of assert statements changed: {got}')
     # find_version: every caller passes micro=False or is dominated by the eci/micro refusal
@@ -321,11 +322,12 @@ def r5(fx):
     # mask_scores: width == height on its call chain
     ok = True
     chain = []
-    for caller, callee, patt in (('evaluate_mask', 'mask_scores', 'mask_scores(matrix, width, height)'),
-                                 ('find_and_apply_best_mask', 'eval_mask', 'eval_mask(m, width, height)')):
+    for caller, patt in (('evaluate_mask', 'mask_scores(matrix, width, height)'), ('find_and_apply_best_mask', 'H_f(H_m, width, height)')):
         fn = fx.fn('encoder', caller)
-        cs = [c for c in src.calls_in(fn, callee, into_nested=False)]
-        ok &= len(cs) == 1 and pat.match(cs[0], patt) is not None
+        cs = [c for c in src.calls_in(fn, into_nested=False) if pat.match(c, patt) is not None
+              and (caller == 'evaluate_mask' or (isinstance(c.func, ast.Name) and not c.keywords and c.func.id not in ('apply_mask', 'make_matrix',
+                                                                                                                       'add_finder_patterns', 'add_alignment_patterns')))]
+        ok &= len(cs) == 1
         chain.append([ast.unparse(c) for c in cs])
     yield ob('mask_scores receives the width/height of _encode, where height = width (C02.R3)', ok, fx.fn('encoder', 'mask_scores'),
              got=chain, want='width, height passed through unchanged')
@@ -520,7 +522,7 @@ def r9(fx):
                                                                                            ['return 0', 'return 1']), fn,
              got=sorted(ast.unparse(r) for r in rets), want=['return 0', 'return sys.exit(1)'])
     tail = fx.forest.mod('cli').body[-1]
-    yield ob('script entry runs main()', isinstance(tail, ast.If) and nf.norm(tail.test) == "__name__ == '__main__'", tail,
+    yield ob('script entry runs main()', isinstance(tail, ast.If) and nf.same(tail.test, "__name__ == '__main__'"), tail,
              got=ast.unparse(tail)[:60], want="if __name__ == '__main__': main()")
 
 
